@@ -24,7 +24,14 @@ type Q = Mappings<2, ()>;
 #[derive(Clone, Copy, Debug, PartialEq, Eq)]
 enum Category { InDomain, Orphans, UnnamedParam, OutsideProviso }
 
+/// set by `miri_slice` only: small sets with hostile names (the ordinary workloads never see it)
+static MIRI_SLICE_CFG: std::sync::atomic::AtomicBool = std::sync::atomic::AtomicBool::new(false);
+
 fn cfg() -> GenCfg {
+    if MIRI_SLICE_CFG.load(std::sync::atomic::Ordering::Relaxed) { return maps::slice::small(GenCfg { max_classes: 4, ..cfg_ordinary() }); }
+    cfg_ordinary()
+}
+fn cfg_ordinary() -> GenCfg {
     GenCfg { namespaces: Some(2), comments: CommentClass::Rich, comment_chance: (2, 5), empty_comments: true, param_src: ParamSrc::Mixed,
         max_classes: 7, max_fields: 3, max_methods: 3, max_params: 3, big: (1, 60), orphan: (1, 4), target_dollar: false, unique_per_namespace: true, ..GenCfg::default() }
 }
@@ -49,6 +56,8 @@ fn gen_set(rng: &mut Rng) -> (Maps, Category) {
         let tops: Vec<String> = m.classes.keys().filter(|k| split_inner(k).is_none() && !k.contains('$')).cloned().collect();
         if let Some(t) = tops.first().cloned() {
             let depth = rng.usize_in(13, 28);
+            // the Miri slice keeps the chain (the text form indents one tab per level) but shorter: a 28-level chain costs ~90 s there
+            let depth = if MIRI_SLICE_CFG.load(std::sync::atomic::Ordering::Relaxed) { 4 + depth % 5 } else { depth };
             let mut src = t.clone();
             for d in 1..=depth {
                 src = format!("{src}$N{d}");
@@ -457,7 +466,39 @@ fn self_checks(seed: u64) -> Result<(), String> {
 
 // ------------------------------------------------------------------------------------------------ main
 
+/// cases of the Miri slice the thorough tier asks for (measured: see NOTES.md)
+const MIRI_CASES: usize = 35;
+
+/// Write-only probe with lone surrogates (the text format cannot carry them; nothing is judged but unexpected panics): `write_all`
+/// places and sorts the classes by their raw names and prints them through duke's `Display`, which refuses names that are not
+/// UTF-8 (`fmt::Error` -> the panic of `io::Write::write_fmt`; counted, see NOTES.md of C03).
+fn surrogate_write_probe(rng: &mut Rng, rep: &mut Report) {
+    // up to 6 draws until a set carries the marker (U+FFFD in the model = lone surrogate in the tree)
+    let mut m = gen_set(rng).0;
+    for _ in 0..5 { if m.render().contains('\u{fffd}') { break; } m = gen_set(rng).0; }
+    rep.eval();
+    let Ok(q) = to_quill::<2, ()>(&m, &mut Ins::Shuffle(&mut rng.fork())) else { rep.count("harness.to_quill_failed"); return };
+    match write_all(&q) {
+        Err(p) if p.message.contains("formatting trait implementation returned an error") => rep.count("miri.surrogate_write.panics_because_Display_refuses_non_UTF-8 (not judged)"),
+        Err(p) => rep.violation(format!("panic {}", p.site()), json!({"api": "write_all (names with lone surrogates)", "message": p.message, "input": m.render()})),
+        Ok(Err(_)) => rep.count("miri.surrogate_write.refused (not judged)"),
+        Ok(Ok(_)) => rep.count("miri.surrogate_sets_written"),
+    }
+}
+
+/// `c12 --miri-slice <seed> <cases> <max seconds>`: single-threaded, no files: the stream workload (write_all from 3 insertion
+/// orders, write_one per file-level class, read_into - every third text through the short-read reader -, R-enigma comparison, text
+/// census) on small sets in which a third of the simple names are hostile (NUL, boundary / supplementary code points, BOM,
+/// descriptor letters, names of 40..1300 bytes); every sixth case writes a set with lone surrogates. The directory workload needs
+/// the file system and is not part of the slice.
+fn miri_slice(seed: u64, cases: usize, max_s: u64) -> i32 {
+    MIRI_SLICE_CFG.store(true, std::sync::atomic::Ordering::Relaxed);
+    let right = Wrong { expectation: false };
+    maps::slice::run("C12", seed, cases, max_s, 6, |rng, rep, i, sur| if sur { surrogate_write_probe(rng, rep) } else { one_case(rng, rep, i, None, &right) })
+}
+
 fn main() {
+    if let Some((seed, n, max_s)) = common::miri::slice_args() { std::process::exit(miri_slice(seed, n, max_s)); }
     let mut ctx = Ctx::from_args("C12", 35, 420);
     let replay = load_replay(&mut ctx);
     if let Err(e) = self_checks(ctx.seed) { println!("HARNESS-ERROR C12 self-check failed: {e}"); std::process::exit(3); }
@@ -489,6 +530,11 @@ fn main() {
         meta.oblige("stream, write_one and directory formats all exercised", rep.get("stream.writes") > 0 && rep.get("write_one.calls") > 0 && rep.get("directory.writes") > 0);
         meta.oblige("at most 10% of the cases fall outside the judged domain by accident", rep.get("not_judged.total") * 10 <= rep.evaluations);
         meta.oblige("no harness conversion / scratch I/O failure", rep.get("harness.to_quill_failed") + rep.get("harness.scratch_io") == 0);
+        if ctx.tier == Tier::Thorough {
+            let r = common::miri::run_slice(&ctx, "c12", env!("CARGO_MANIFEST_DIR"), MIRI_CASES, 170, 285);
+            if let Some(line) = r.ub { rep.cur = ("miri".into(), 0); rep.violation(format!("miri: {line}"), json!({"how": format!("cargo +nightly miri run --offline -p c12 -- --miri-slice <seed> {MIRI_CASES} 170"), "seed": ctx.seed as i64, "status": r.status})); }
+            meta.extra.insert("miri_slice".into(), json!(r.status));
+        } else { meta.extra.insert("miri_slice".into(), json!("not run in the quick tier")); }
     }
     std::process::exit(finish(&ctx, rep, meta));
 }
